@@ -291,23 +291,23 @@ theorem cache_stable (leaf : Inv → Inv) (up : Inv → Inv → Inv)
             · refine ⟨g0, ?_, (u3 _).mpr hg0q, hg0p⟩
               rw [u4]; exact (mem_replaceKid _ _ _).mpr (Or.inr ⟨hg0, by rw [i4]; exact hgk⟩)
 
-theorem cache_rekey (g : Inv → Inv) (hg : KeyOnly g) (path : List Nat) (t : Inv) (ht : HeapTree t)
-    (h : CacheTree t) : CacheTree (rekey g path t) := by
-  refine (cache_stable g (upRekey g) (fun i => ⟨hg.key i, hg.ops i, hg.queued i, hg.kids i, hg.prio i⟩) ?_
+/-- The code before fix ca91fdf (no refresh after an executing-count change): only this weaker
+invariant survives. -/
+theorem cache_rekey_legacy (g : Inv → Inv) (hg : KeyOnly g) (path : List Nat) (t : Inv) (ht : HeapTree t)
+    (h : CacheTree t) : CacheTree (rekey true g path t) := by
+  refine (cache_stable g (upRekey true g) (fun i => ⟨hg.key i, hg.ops i, hg.queued i, hg.kids i, hg.prio i⟩) ?_
     path t ht h).1
   intro P c'
-  unfold upRekey
-  simp only []
-  refine ⟨by rw [hg.key]; simp [storeKid], by rw [hg.ops]; simp [storeKid], ?_, by rw [hg.kids]; simp [storeKid],
-    by rw [hg.prio]; simp [storeKid]⟩
-  intro x
-  rw [hg.queued]
-  simp only [S.setParkedKids_queued, S.setQueued_queued]
-  unfold maybeFix
-  split
-  · simp
-  · rename_i idx _
-    exact mem_of_perm_toList (fix_perm _ _ idx) x
+  obtain ⟨f1, f2, f3, f4, _, _⟩ := upRekey_fields true g hg P c'
+  refine ⟨f4, f2, ?_, f1, ?_⟩
+  · intro x
+    rw [f3]
+    unfold maybeFix
+    split
+    · simp
+    · rename_i idx _
+      exact mem_of_perm_toList (fix_perm _ _ idx) x
+  · unfold upRekey; simp [hg.prio, storeKid]
 
 theorem cache_park (w : Nat) (path : List Nat) (t : Inv) (ht : HeapTree t) (h : CacheTree t) :
     CacheTree (park w path t) :=
@@ -317,5 +317,124 @@ theorem cache_unpark (idx : Nat) (path : List Nat) (t : Inv) (ht : HeapTree t) (
     CacheTree (unpark idx path t) :=
   (cache_stable _ upUnpark (by simp) (by
     intro P c'; unfold upUnpark; simp only []; split <;> simp [storeKid]) path t ht h).1
+
+/-! ### exact caches under every update (after fix ca91fdf) -/
+
+theorem cacheNode_of_exact (c : Inv) (hres : ∀ k ∈ c.queued, ∃ g ∈ c.kids, g.key = k) (h : c.prio = firstPrio c) :
+    cacheNode c := by
+  have := cacheNode_updateFirst c hres
+  obtain ⟨_, fkids, fq, fo, _⟩ := updateFirst_fields c
+  unfold cacheNode at this ⊢
+  rw [fo, fq, fkids, updateFirst_prio, ← h] at this
+  exact this
+
+/-- Exact caches imply the weaker invariant. -/
+theorem cacheTree_of_exact : ∀ (t : Inv), HeapTree t → ExactTree t → CacheTree t := by
+  intro t ht
+  induction ht with
+  | mk i _ _ _ _ _ _ hk ih =>
+    intro he
+    rw [cacheTree_iff]
+    intro c hc
+    obtain ⟨hp, hce⟩ := ((exactTree_iff i).mp he) c hc
+    refine ⟨cacheNode_of_exact c ?_ hp, ih c hc hce⟩
+    intro x hx
+    obtain ⟨g, hg, hgk, _⟩ := ((heapTree_iff c).mp (hk c hc)).1.qsub x hx
+    exact ⟨g, hg, hgk⟩
+
+theorem exact_rekey (g : Inv → Inv) (hg : KeyOnly g) : ∀ (path : List Nat) (t : Inv), ExactTree t →
+    ExactTree (rekey false g path t) ∧ (t.prio = firstPrio t → (rekey false g path t).prio = firstPrio (rekey false g path t)) := by
+  intro path
+  induction path with
+  | nil =>
+    intro t ht
+    show ExactTree (g t) ∧ (t.prio = firstPrio t → (g t).prio = firstPrio (g t))
+    refine ⟨exactTree_congr t _ (hg.kids t) ht, fun h => ?_⟩
+    rw [firstPrio_congr t (g t) (hg.ops t) (hg.queued t) (hg.kids t) (hg.prio t), hg.prio]; exact h
+  | cons k p ih =>
+    intro t ht
+    cases hck : t.child k with
+    | none =>
+      have : rekey false g (k :: p) t = t := by simp only [rekey, updatePath, hck]
+      rw [this]; exact ⟨ht, id⟩
+    | some c =>
+      obtain ⟨hcmem, _⟩ := mem_of_child t k c hck
+      obtain ⟨hcp, hce⟩ := ((exactTree_iff t).mp ht) c hcmem
+      obtain ⟨i1, i2⟩ := ih c hce
+      unfold rekey at i1 i2 ⊢
+      rw [updatePath_cons _ _ k p t c hck]
+      generalize updatePath g (upRekey false g) p c = c' at i1 i2
+      obtain ⟨hrk, _, _, _, _, _⟩ := upRekey_fields false g hg t c'
+      refine ⟨?_, fun _ => ?_⟩
+      · rw [exactTree_iff, hrk]
+        intro d hd
+        rcases (mem_replaceKid _ _ _).mp hd with ⟨rfl, _⟩ | ⟨hd', _⟩
+        · exact ⟨i2 hcp, i1⟩
+        · exact ((exactTree_iff t).mp ht) d hd'
+      · -- the parent was refreshed right after its queuedChildren heap was fixed
+        unfold upRekey
+        simp only [Bool.false_eq_true, if_false]
+        generalize (storeKid t c').setQueued _ = N1
+        obtain ⟨_, fkids, fq, fo, _⟩ := updateFirst_fields N1
+        rw [firstPrio_congr (updateFirstOperationPriority N1) _ (by rw [hg.ops]; simp) (by rw [hg.queued]; simp)
+          (by rw [hg.kids]; simp) (by rw [hg.prio]; simp), firstPrio_updateFirst, hg.prio]
+        simp [updateFirst_prio]
+
+/-- Walks that change neither operations, nor `queuedChildren`, nor cached priorities (parking,
+`dequeue`, creation and removal of invocations that are in no heap). -/
+theorem exact_stable (leaf : Inv → Inv) (up : Inv → Inv → Inv)
+    (hleaf : ∀ i, HeapTree i → ExactTree i → ExactTree (leaf i) ∧ (leaf i).prio = i.prio ∧
+      firstPrio (leaf i) = firstPrio i ∧ (leaf i).key = i.key)
+    (hu : ∀ P c', (up P c').key = P.key ∧ (up P c').ops = P.ops ∧ (up P c').queued = P.queued ∧
+      (up P c').kids = replaceKid P.kids c' ∧ (up P c').prio = P.prio) :
+    ∀ (path : List Nat) (t : Inv), HeapTree t → ExactTree t →
+      ExactTree (updatePath leaf up path t) ∧ (updatePath leaf up path t).prio = t.prio ∧
+      firstPrio (updatePath leaf up path t) = firstPrio t ∧ (updatePath leaf up path t).key = t.key := by
+  intro path
+  induction path with
+  | nil => intro t ht he; exact hleaf t ht he
+  | cons k p ih =>
+    intro t ht he
+    cases hck : t.child k with
+    | none =>
+      have : updatePath leaf up (k :: p) t = t := by simp only [updatePath, hck]
+      rw [this]; exact ⟨he, rfl, rfl, rfl⟩
+    | some c =>
+      obtain ⟨hcmem, hckey⟩ := mem_of_child t k c hck
+      obtain ⟨hcp, hce⟩ := ((exactTree_iff t).mp he) c hcmem
+      obtain ⟨i1, i2, i3, i4⟩ := ih c (((heapTree_iff t).mp ht).2 c hcmem) hce
+      rw [updatePath_cons _ _ k p t c hck]
+      generalize updatePath leaf up p c = c' at i1 i2 i3 i4
+      obtain ⟨u1, u2, u3, u4, u5⟩ := hu t c'
+      refine ⟨?_, u5, ?_, u1⟩
+      · rw [exactTree_iff, u4]
+        intro d hd
+        rcases (mem_replaceKid _ _ _).mp hd with ⟨rfl, _⟩ | ⟨hd', _⟩
+        · exact ⟨by rw [i2, i3]; exact hcp, i1⟩
+        · exact ((exactTree_iff t).mp he) d hd'
+      · unfold firstPrio
+        rw [u2, u3, u4, u5]
+        cases t.ops with
+        | cons _ _ => rfl
+        | nil =>
+          cases t.queued with
+          | nil => rfl
+          | cons b _ =>
+            simp only []
+            by_cases hb : b = c'.key
+            · rw [hb, kidOr_replaceKid_self t.kids c' c hcmem i4.symm, i4, hckey, kidOr_of_child t k c hck, i2]
+            · rw [kidOr_replaceKid_ne t.kids c' b hb]
+
+theorem exact_park (w : Nat) (path : List Nat) (t : Inv) (ht : HeapTree t) (h : ExactTree t) :
+    ExactTree (park w path t) :=
+  (exact_stable _ upPark (fun i _ he => ⟨exactTree_congr i _ (by simp) he, by simp,
+      firstPrio_congr i _ (by simp) (by simp) (by simp) (by simp), by simp⟩)
+    (by intro P c'; simp [upPark, storeKid]) path t ht h).1
+
+theorem exact_unpark (idx : Nat) (path : List Nat) (t : Inv) (ht : HeapTree t) (h : ExactTree t) :
+    ExactTree (unpark idx path t) :=
+  (exact_stable _ upUnpark (fun i _ he => ⟨exactTree_congr i _ (by simp) he, by simp,
+      firstPrio_congr i _ (by simp) (by simp) (by simp) (by simp), by simp⟩)
+    (by intro P c'; unfold upUnpark; simp only []; split <;> simp [storeKid]) path t ht h).1
 
 end BbRe.Lemmas.Fair
